@@ -143,6 +143,16 @@ var hintLemmas = map[string]*hintLemma{
 	"bi-comm": {"bi-comm", 2, func(u *Unit, a []*Term) *Term {
 		return Eq(u.specBI(a[0], IntLit(0), a[1]), u.specBI(a[1], IntLit(0), a[0]))
 	}},
+	"fdiv-ge": {"fdiv-ge", 3, func(u *Unit, a []*Term) *Term {
+		// k whole frames fit into n: k <= floor(n/ch)
+		n, ch, k := a[0], a[1], a[2]
+		return Imp(And(Ge(ch, IntLit(1)), Ge(n, IntLit(0)), Le(u.specBI(ch, IntLit(0), k), n)), Le(k, u.specFn("fdiv", n, ch)))
+	}},
+	"aligned-ge": {"aligned-ge", 2, func(u *Unit, a []*Term) *Term {
+		// a non-empty whole number of frames is at least one frame
+		n, ch := a[0], a[1]
+		return Imp(And(Ge(ch, IntLit(1)), Ge(n, IntLit(1)), Eq(n, u.specBI(ch, IntLit(0), u.specFn("fdiv", n, ch)))), Le(ch, n))
+	}},
 	"bi-zero": {"bi-zero", 1, func(u *Unit, a []*Term) *Term {
 		return Eq(u.specBI(a[0], IntLit(0), IntLit(0)), IntLit(0))
 	}},
@@ -173,6 +183,51 @@ func hintLemmaObligations(props []string) []*Obligation {
 			vars = append(vars, bv("a"+string(rune('0'+i))+"?"))
 		}
 		out = append(out, &Obligation{Name: "lemma/arith/" + n, Kind: "lemma", Props: props, Goal: Forall(vars, l.mk(u, vars)), Ctx: u.ctx, Fn: "lemma/arith"})
+	}
+	return out
+}
+
+// sliceLemmaObligations: consequences of the Slice contract (window clause)
+// under the arithmetic definitions: reported lengths, shared storage, composition.
+func sliceLemmaObligations(props []string) []*Obligation {
+	var out []*Obligation
+	mkU := func() (*Unit, *Term, *Term, *Term, *Term, *Term) {
+		u := &Unit{ctx: NewCtx(), theory: "defined"}
+		return u, u.ctx.Const("ch", SInt), u.ctx.Const("p", SInt), u.ctx.Const("K", SInt), u.ctx.Const("s", SInt), u.ctx.Const("e", SInt)
+	}
+	{
+		u, ch, _, K, s, e := mkU()
+		// parent: cap = ch*K; view: len = ch*e - ch*s, cap' = ch*K - ch*s
+		assume := []*Term{Ge(ch, IntLit(1)), Le(IntLit(0), s), Le(s, e), Le(e, K)}
+		lenV := Sub(u.specBI(ch, IntLit(0), e), u.specBI(ch, IntLit(0), s))
+		capV := Sub(u.specBI(ch, IntLit(0), K), u.specBI(ch, IntLit(0), s))
+		out = append(out, &Obligation{Name: "lemma/slice/reported-length", Kind: "lemma", Props: props, Ctx: u.ctx, Fn: "lemma/slice", Assume: assume,
+			Goal: Eq(u.specFn("cdiv", lenV, ch), Sub(e, s))})
+		out = append(out, &Obligation{Name: "lemma/slice/reported-capacity", Kind: "lemma", Props: props, Ctx: u.ctx, Fn: "lemma/slice", Assume: assume,
+			Goal: Eq(u.specFn("fdiv", capV, ch), Sub(K, s))})
+	}
+	{
+		u, ch, p, _, s, _ := mkU()
+		c, i := u.ctx.Const("c", SInt), u.ctx.Const("i", SInt)
+		ptrV := Add(p, u.specBI(ch, IntLit(0), s))
+		out = append(out, &Obligation{Name: "lemma/slice/shared-storage", Kind: "lemma", Props: props, Ctx: u.ctx, Fn: "lemma/slice",
+			Goal: Eq(Add(ptrV, u.specBI(ch, c, i)), Add(p, u.specBI(ch, c, Add(s, i))))})
+	}
+	{
+		u, ch, p, K, s1, e1 := mkU()
+		s2, e2 := u.ctx.Const("s2", SInt), u.ctx.Const("e2", SInt)
+		_ = e1
+		// window of Slice(Slice(b,s1,e1),s2,e2) = window of Slice(b,s1+s2,s1+e2)
+		ptr1 := Add(p, u.specBI(ch, IntLit(0), s1))
+		cap1 := Sub(u.specBI(ch, IntLit(0), K), u.specBI(ch, IntLit(0), s1))
+		ptr2 := Add(ptr1, u.specBI(ch, IntLit(0), s2))
+		len2 := Sub(u.specBI(ch, IntLit(0), e2), u.specBI(ch, IntLit(0), s2))
+		cap2 := Sub(cap1, u.specBI(ch, IntLit(0), s2))
+		ptrD := Add(p, u.specBI(ch, IntLit(0), Add(s1, s2)))
+		lenD := Sub(u.specBI(ch, IntLit(0), Add(s1, e2)), u.specBI(ch, IntLit(0), Add(s1, s2)))
+		capD := Sub(u.specBI(ch, IntLit(0), K), u.specBI(ch, IntLit(0), Add(s1, s2)))
+		out = append(out, &Obligation{Name: "lemma/slice/composition", Kind: "lemma", Props: props, Ctx: u.ctx, Fn: "lemma/slice",
+			Goal: And(Eq(ptr2, ptrD), Eq(len2, lenD), Eq(cap2, capD))})
 	}
 	return out
 }
